@@ -233,9 +233,20 @@ func replayArm(raw json.RawMessage) (string, string) {
 	if err := json.Unmarshal(raw, &sc); err != nil {
 		return "harness", err.Error()
 	}
-	for i := 0; i < 20; i++ {
-		if k, m := judgeArm(sc); k != "" && k != "inconclusive" {
-			return k, m
+	// twenty executions side by side (the schedule is not part of the script)
+	keys, msgs := make([]string, 20), make([]string, 20)
+	var wg sync.WaitGroup
+	for i := range keys {
+		wg.Add(1)
+		go func(i int) {
+			defer wg.Done()
+			keys[i], msgs[i] = judgeArm(sc)
+		}(i)
+	}
+	wg.Wait()
+	for i, k := range keys {
+		if k != "" && k != "inconclusive" {
+			return k, msgs[i]
 		}
 	}
 	return "", ""
